@@ -71,6 +71,24 @@ DrawToTerm(d, lines, bottom) ==
         t9 == Newlines(p.t, p.blank)
     IN [t |-> t9, llc |-> p.real + shift, atEnd |-> IF p.blank > 0 THEN FALSE ELSE p.atEnd]
 
+(* ----------------------------------------------------------------------- *)
+(* The rate limiter of a draw target (RateLimiter in draw_target.rs), in     *)
+(* microseconds: exact for the refresh rates whose interval ceil(10^9 / hz)  *)
+(* ns is a whole number of microseconds (LimExact).  Same algorithm as       *)
+(* Limiter.tla (which is checked against the throttling laws); here it is    *)
+(* composed with the draw path: an ordinary draw request is performed only   *)
+(* if the bucket allows it, a forced one always and without touching the     *)
+(* bucket.                                                                   *)
+NoLim == [on |-> FALSE, ivl |-> 1, cap |-> 20, prev |-> 0]
+IvlNs(hz) == (1000000000 + hz - 1) \div hz
+LimExact(hz) == hz > 0 /\ IvlNs(hz) % 1000 = 0
+LimNew(hz, now) == [on |-> TRUE, ivl |-> IvlNs(hz) \div 1000, cap |-> 20, prev |-> now]
+Allow(l, now) ==
+    LET elapsed == now - l.prev
+        c == l.cap + (elapsed \div l.ivl) - 1
+    IN IF l.cap = 0 /\ elapsed < l.ivl THEN [ok |-> FALSE, l |-> l]
+       ELSE [ok |-> TRUE, l |-> [l EXCEPT !.cap = Min(20, c), !.prev = now - (IF c >= 20 THEN 0 ELSE elapsed % l.ivl)]]   \* a full bucket banks no time
+
 ToBar(ls) == [j \in 1..Len(ls) |-> BarLine(ls[j])]
 ToText(ls) == [j \in 1..Len(ls) |-> TextLine(ls[j])]
 =============================================================================
